@@ -228,3 +228,21 @@ impl HostBytes {
   weaken_thunk_patterns
 @*/
 /*@end*/
+/*@fn lang/dynamics/src/impls.rs :: fn str_parse_int_branch
+  plain
+  vec_as_slice args
+  weaken_thunk_patterns
+@*/
+/*@end*/
+/*@fn lang/dynamics/src/impls.rs :: fn bytes_to_str_branch
+  plain
+  vec_as_slice args
+  weaken_thunk_patterns
+@*/
+/*@end*/
+/*@fn lang/dynamics/src/impls.rs :: fn str_eq_branch
+  plain
+  vec_as_slice args
+  weaken_thunk_patterns
+@*/
+/*@end*/
